@@ -214,13 +214,14 @@ def update_cycle_records(rng):
             s.quiesce()
             peer.wcget_delay = 0.6
             n0 = peer.n_getwc
-            cfg.set_config_mode(cfg.GeckoConfig.PING_FREQUENCY_IN_SECONDS <= 10)      # wakes the update loop
-            for _ in range(40):
+            # the next periodic update cycle (no wake-up trick: the loop's own period, in virtual time)
+            period = cfg.GeckoConfig.FACADE_UPDATE_FREQUENCY_IN_SECONDS
+            for _ in range(int((period + 10) / 0.05)):
                 s.advance(0.05)
                 if peer.n_getwc > n0:
                     break
             if peer.n_getwc == n0:
-                raise env.MachineryError("the facade update loop did not poll when woken")
+                raise env.MachineryError("the facade update loop did not poll within its period")
             # the spa reports the device change while the poll is unanswered
             pos, data = peer._field_write(sim_acc, on_raw if want_on else off_raw)
             s.inject(peer.push_changes(s.client_parms(), [(pos, data)]))
